@@ -454,10 +454,14 @@ func c44Session(r *Rng, sid int, class string) Case {
 		}
 	}
 
-	// quiescence: no more changes; wait until every connected client holds the latest version, or until
-	// nothing at all has happened for `idle` (scaled by the compile latency this machine shows right now,
-	// so that a loaded machine does not look like a stuck watcher); then the harness declares quiescence.
-	hardDeadline := time.Now().Add(150 * time.Second)
+	// quiescence: no more changes; wait until every connected client holds the latest version.  To tell a
+	// stuck watcher from a slow machine, the harness keeps compiling the same content itself (d2cli.Run,
+	// non-watch, in a sibling directory) and gives up only when nothing at all has happened for six times
+	// as long as its own compile takes right now (at least 2.5 s).
+	waitStart := time.Now()
+	hardDeadline := waitStart.Add(150 * time.Second)
+	var refMax time.Duration
+	refRuns := 0
 	for {
 		log.mu.Lock()
 		ok := true
@@ -466,25 +470,22 @@ func c44Session(r *Rng, sid int, class string) Case {
 				ok = false
 			}
 		}
-		idle := 8 * log.firstSignal
-		if log.firstSignal == 0 {
-			idle = 60 * time.Second
-		}
-		if idle < 2500*time.Millisecond {
-			idle = 2500 * time.Millisecond
-		}
-		if idle > 40*time.Second {
-			idle = 40 * time.Second
-		}
-		quiet := time.Since(log.lastEv) > idle
+		sinceEv := time.Since(log.lastEv)
 		log.mu.Unlock()
-		if ok || quiet || time.Now().After(hardDeadline) {
+		if ok || time.Now().After(hardDeadline) {
 			break
 		}
-		select {
-		case <-log.notify:
-		case <-time.After(50 * time.Millisecond):
+		limit := 6 * refMax
+		if limit < 2500*time.Millisecond {
+			limit = 2500 * time.Millisecond
 		}
+		if refRuns > 0 && sinceEv > limit && time.Since(waitStart) > limit {
+			break
+		}
+		if d := c44RefCompile(dir, version); d > refMax {
+			refMax = d
+		}
+		refRuns++
 	}
 	sleep(120) // let a possible extra compile / duplicate delivery arrive before declaring quiescence
 	log.add(c44Ev{Kind: "quiesce"}, nil)
@@ -521,10 +522,29 @@ func c44Session(r *Rng, sid int, class string) Case {
 	}
 	cs.Coq = "Case " + c44CoqHist(evs)
 	cs.Input = map[string]any{"script": strings.Join(script, " ")}
-	cs.Impl = map[string]any{"history": evs}
+	cs.Impl = map[string]any{"history": evs, "ref_compiles": refRuns, "ref_compile_max_ms": refMax.Milliseconds()}
 	cs.Nontrivial = nrecv >= 1 && nchg >= 1
 	cs.Key = fmt.Sprintf("%d:%s", sid, strings.Join(script, ""))
 	return cs
+}
+
+// c44RefCompile compiles the given version once through d2cli.Run (no watch) and returns how long it took:
+// a measurement of how slow this machine is at this moment.
+func c44RefCompile(dir string, v int) time.Duration {
+	rd := filepath.Join(dir, "ref")
+	os.MkdirAll(rd, 0o755)
+	in := filepath.Join(rd, "ref.d2")
+	os.WriteFile(in, c44Content(v), 0o644)
+	lw := &c44LogWriter{addr: make(chan string, 1)}
+	ms := c44State(rd, []string{in, filepath.Join(rd, "ref.svg")}, lw)
+	ctx, cancel := context.WithTimeout(context.Background(), 120*time.Second)
+	defer cancel()
+	t := time.Now()
+	func() {
+		defer func() { recover() }()
+		_ = d2cli.Run(ctx, ms)
+	}()
+	return time.Since(t)
 }
 
 func sortInts(a []int) {
